@@ -348,20 +348,19 @@ def findIdx (l : List Nat) (a : Nat) : Res Nat :=
 /-- minimum of the head strides and the backbone `output_stride` (`Model.__init__`) -/
 def Cfg.minOs (c : Cfg) : Nat := minList (c.heads.map (·.os)) c.bos
 
-/-- `Model.__init__`, one head: `in_channels` of its 1×1 convolution.  `strides.index(...)` is
-    only evaluated when the head does not sit at the minimum output stride. -/
-def headInFor (r : Rate) (xIn n : Nat) (strides : List Nat) (minOs os : Nat) : Res Nat :=
-  if os ≠ minOs then
-    (findIdx strides minOs).bind fun i => (findIdx strides os).bind fun j =>
-      .ok (headIn r xIn n (some (i - j)))
-  else .ok (headIn r xIn n none)
+/-- `Model.__init__` (HEAD of /repo, commit c60aeeb), one head: the `in_channels` of its 1×1 convolution are read
+    from the decoder block the head will be applied to —
+    `decoder_stack[strides.index(head.output_stride)].refine_convs_filters` (`ValueError` when the stride is
+    not a decoder stride).  The head's own `output_stride` is used, never the position of its entry
+    in the `head_configs` mapping. -/
+def headInFor (b : Built) (os : Nat) : Res Nat :=
+  (findIdx (labels b.dec) os).bind fun j => .ok ((b.dec.map (·.out)).getD j 0)
 
 /-- `Model.__init__`: the `in_channels` of every head layer. -/
-def initHeads (c : Cfg) (b : Built) : List Head → Res (List Nat)
+def initHeads (b : Built) : List Head → Res (List Nat)
   | [] => .ok []
   | h :: hs =>
-    (headInFor c.rate b.xIn b.dec.length (labels b.dec) c.minOs h.os).bind fun x =>
-      (initHeads c b hs).bind fun xs => .ok (x :: xs)
+    (headInFor b h.os).bind fun x => (initHeads b hs).bind fun xs => .ok (x :: xs)
 
 structure Constructed where
   built : Built
@@ -369,20 +368,33 @@ structure Constructed where
 deriving DecidableEq, Repr
 
 def construct (c : Cfg) : Res Constructed :=
-  (build c).bind fun b => (initHeads c b c.heads).bind fun hi => .ok { built := b, headIn := hi }
+  (build c).bind fun b => (initHeads b c.heads).bind fun hi => .ok { built := b, headIn := hi }
 
-/-- `Model.__init__` with `fixes/C14-head-in-channels.patch`: the head's `in_channels` are read from the
-    decoder block the head will be applied to (`decoder_stack[strides.index(stride)].refine_convs_filters`)
-    instead of being re-derived with `round` / `**`.  Not what the pinned tree does: used by the driver
-    only when the harness detects the patched behaviour. -/
-def initHeadsFixed (b : Built) : List Head → Res (List Nat)
+/-! ### the tree before c60aeeb (regression record of F-C14-head-in-channels)
+
+`in_channels` re-derived arithmetically: `int(round(max_channels / r**len(decoder_stack)))`, then `* r**factor`
+with `factor` from `strides.index` look-ups relative to the minimum output stride. -/
+
+def headInForAsIs (r : Rate) (xIn n : Nat) (strides : List Nat) (minOs os : Nat) : Res Nat :=
+  if os ≠ minOs then
+    (findIdx strides minOs).bind fun i => (findIdx strides os).bind fun j =>
+      .ok (headIn r xIn n (some (i - j)))
+  else .ok (headIn r xIn n none)
+
+def initHeadsAsIs (c : Cfg) (b : Built) : List Head → Res (List Nat)
   | [] => .ok []
   | h :: hs =>
-    (findIdx (labels b.dec) h.os).bind fun j =>
-      (initHeadsFixed b hs).bind fun xs => .ok ((b.dec.map (·.out)).getD j 0 :: xs)
+    (headInForAsIs c.rate b.xIn b.dec.length (labels b.dec) c.minOs h.os).bind fun x =>
+      (initHeadsAsIs c b hs).bind fun xs => .ok (x :: xs)
 
-def constructFixed (c : Cfg) : Res Constructed :=
-  (build c).bind fun b => (initHeadsFixed b c.heads).bind fun hi => .ok { built := b, headIn := hi }
+def constructAsIs (c : Cfg) : Res Constructed :=
+  (build c).bind fun b => (initHeadsAsIs c b c.heads).bind fun hi => .ok { built := b, headIn := hi }
+
+/-- `get_head` reads the head entries of the `head_configs` mapping BY NAME, in a fixed order (`confmaps`,
+    then `pafs` for bottom-up models): the order of the mapping's keys is irrelevant
+    (`Props/C14.head_contract_order_independent`). -/
+def getHeads (bottomup : Bool) (mapping : List (String × Head)) : List Head :=
+  (if bottomup then ["confmaps", "pafs"] else ["confmaps"]).filterMap fun n => mapping.lookup n
 
 /-- declared `(in_channels, out_channels)` of every stride-1 convolution of an encoder, in order -/
 def encConvs : List Op → List (Nat × Nat)
